@@ -46,6 +46,14 @@ func runC05(w *World, r *Report) {
 	fwd := w.Fn("compose", "forwardCheckPoint")
 	clr := w.Fn("compose", "clearCheckPoint")
 
+	// ---- stream-pairs-set: the stream<->value converters the checkpointer uses are real functions
+	r.Rule("C05.stream-pairs-set", "every streamConvertPair handed to the checkpointer comes from a field that is written somewhere (a never-written pair is two nil functions: converting a pending stream for the checkpoint panics)", 3)
+	streamPairsSetChecks(w, r, "C05.stream-pairs-set")
+
+	// ---- pair-table-typing: the table that converts channel contents is typed like the channel contents
+	r.Rule("C05.pair-table-typing", "the stream<->value pair used for a value pending in a channel is typed like that value: values are stored AFTER the edge handlers ran, so a pair taken from the sender's declared output type is wrong on edges whose handlers retype the stream (field mappings)", 1)
+	pairTableTypingCheck(w, r, "C05.pair-table-typing")
+
 	// ---- checkpoint-fields
 	r.Rule("C05.checkpoint-fields", "every checkpoint field is written at a save site and read on the resume path", 5)
 	st := cpT.Underlying().(*types.Struct)
@@ -412,4 +420,139 @@ func runC05(w *World, r *Report) {
 		})
 		r.Check(okk, "C05.nested-once", "clearCheckPoint stores a nil checkpoint", clr.Pos(), "context.WithValue(ctx, checkPointKey{}, nil)", "clearCheckPoint does not clear")
 	}
+}
+
+// streamPairsSetChecks: NEVER-WRITTEN applied to the function-bearing fields of package compose, armed for
+// the fields whose value reaches newCheckPointer's pair tables (checked by type: streamConvertPair), info for
+// the rest.
+func streamPairsSetChecks(w *World, r *Report, rule string) {
+	scp := w.Named("compose", "streamConvertPair")
+	nw := neverWrittenFields(w, "compose")
+	bad := map[*types.Var]bool{}
+	for _, u := range nw {
+		if !containsFunc(u.field.Type(), 0) {
+			continue
+		}
+		construct := u.owner.Obj().Name() + "." + u.field.Name() + " is read but never written"
+		if namedOf(u.field.Type()) == scp {
+			bad[u.field] = true
+			r.Fail(rule, construct, u.reads[0].Pos(), "the field always holds the zero streamConvertPair (nil concatStream / restoreStream) yet it is installed in the checkpointer's pair table: a Stream/Transform run that is interrupted while a value from that sender is pending in a channel panics (nil function call) instead of returning the interrupt and writing the checkpoint")
+		} else {
+			r.Info(rule, construct, u.reads[0].Pos(), "function-bearing field never written in package compose (not a checkpoint pair)")
+		}
+	}
+	// every pair installed in the tables is accounted for
+	gcompile := w.Fn("compose", "graph.compile")
+	n := 0
+	instrs(gcompile, func(in ssa.Instruction) {
+		mu, ok := in.(*ssa.MapUpdate)
+		if !ok || namedOf(mu.Value.Type()) != scp {
+			return
+		}
+		n++
+		f, _ := loadedField(mu.Value)
+		if f == nil {
+			r.Fail(rule, fmt.Sprintf("graph.compile pair table entry #%d", n), mu.Pos(), "the installed pair is not read from a field")
+			return
+		}
+		if !bad[f.Origin()] {
+			r.OK(rule, fmt.Sprintf("graph.compile installs %s (entry #%d)", f.Name(), n), mu.Pos(), "the field is written where the node / runner is built")
+		}
+	})
+	if n < 4 {
+		undecidedf("%s: %d pair-table entries in graph.compile (floor 4)", rule, n)
+	}
+}
+
+// pairTableTypingCheck decides three structural facts and reports their conjunction:
+//
+//	(1) graph.compile fills the table for channel contents (2nd argument of newCheckPointer) per SENDER from the
+//	    sender's own outputStreamConvertPair;
+//	(2) channelManager.updateValues stores into the channel what edgeHandlerManager.handle returned;
+//	(3) an edge handler installed in graph.handlerOnEdges packs its stream form with a fixed chunk type
+//	    (streamFieldMap: map[string]any) whatever the sender's type.
+//
+// Together: for a field-mapped edge the pending stream is a stream of map[string]any while the pair expects the
+// sender's type; convertCheckPoint fails ("cannot convert sr to streamReader[T]") and the interrupt is lost.
+func pairTableTypingCheck(w *World, r *Report, rule string) {
+	gcompile := w.Fn("compose", "graph.compile")
+	ncp := w.Fn("compose", "newCheckPointer")
+	// (1)
+	var table ssa.Value
+	for _, c := range callsTo(gcompile, ncp) {
+		table = c.Common().Args[1]
+	}
+	if table == nil {
+		undecidedf("%s: newCheckPointer call not found in graph.compile", rule)
+	}
+	perSender := false
+	var at ssa.Instruction
+	instrs(gcompile, func(in ssa.Instruction) {
+		mu, ok := in.(*ssa.MapUpdate)
+		if !ok || mu.Map != table {
+			return
+		}
+		if f, _ := loadedField(mu.Value); f != nil && f.Name() == "outputStreamConvertPair" {
+			// keyed by the ranged node key itself
+			if e, ok := mu.Key.(*ssa.Extract); ok {
+				if _, isNext := e.Tuple.(*ssa.Next); isNext {
+					perSender, at = true, in
+				}
+			}
+		}
+	})
+	// (2)
+	uv := w.Fn("compose", "channelManager.updateValues")
+	ehh := w.Fn("compose", "edgeHandlerManager.handle")
+	storesHandled := false
+	for _, c := range callsTo(uv, ehh) {
+		e := extractOf(c, 0)
+		if e == nil {
+			continue
+		}
+		for _, ref := range *e.Referrers() {
+			if mu, ok := ref.(*ssa.MapUpdate); ok && mu.Value == ssa.Value(e) {
+				// the map is what reportValues receives
+				instrs(uv, func(in ssa.Instruction) {
+					if invokeName(in) == "reportValues" && in.(ssa.CallInstruction).Common().Args[0] == mu.Map {
+						storesHandled = true
+					}
+				})
+			}
+		}
+	}
+	// (3)
+	sfm := w.Fn("compose", "streamFieldMap")
+	retypes := ""
+	if len(sfm.AnonFuncs) == 1 {
+		instrs(sfm.AnonFuncs[0], func(in ssa.Instruction) {
+			c, ok := in.(*ssa.Call)
+			if !ok {
+				return
+			}
+			if f, ok := c.Call.Value.(*ssa.Function); ok && origin(f) == w.Fn("compose", "packStreamReader") && len(f.TypeArgs()) == 1 {
+				if _, isTP := f.TypeArgs()[0].(*types.TypeParam); !isTP {
+					retypes = f.TypeArgs()[0].String()
+				}
+			}
+		})
+	}
+	installed := false
+	fHOE := w.Field("compose", "graph", "handlerOnEdges")
+	for _, fn := range w.RepoFuncs("compose") {
+		if len(callsTo(fn, sfm)) == 0 {
+			continue
+		}
+		for _, fw := range fieldWrites(fn) {
+			if sameField(fw.field, fHOE) {
+				installed = true
+			}
+		}
+	}
+	construct := "graph.compile: pair table for channel contents typed per sender; field-mapping edge handlers retype the stored stream"
+	if perSender && storesHandled && retypes != "" && installed {
+		r.Fail(rule, construct, at.Pos(), fmt.Sprintf("channel contents are converted for the checkpoint with the SENDER's outputStreamConvertPair, but channels hold what the edge handlers returned, and streamFieldMap retypes the stream to %s: a Stream/Transform run interrupted while a field-mapped value is pending fails with 'failed to convert checkpoint: cannot convert sr to streamReader[T]' — the interrupt is not reported and no checkpoint is written", retypes))
+		return
+	}
+	r.OK(rule, construct, gcompile.Pos(), fmt.Sprintf("not all of: per-sender table=%v, channels store handler results=%v, retyping handler=%q installed=%v", perSender, storesHandled, retypes, installed))
 }
